@@ -1,5 +1,730 @@
-//! infer engine (see main.rs). Entry point: `vh-ops infer [options]`; sub-modes via further arguments.
+//! infer engine (C10): shape inference never contradicts execution.
+//!
+//! `vh-ops infer --out trace.ndjson [--per N] [--chains N] [--ops A,B] [--only-case '<json>'] [--list]`
+//!
+//! Two drivers feed one record format (one `case` + one `ret` record per OPERATOR APPLICATION):
+//!  * single: a single-operator ONNX model (seeded shapes / attributes / integer data) is loaded with
+//!    optimisation off; the operator's `as_infer_shapes()` rule is called on a seeded ABSTRACTION of
+//!    the concrete inputs (dim -> fixed or positive symbol or small expression; element of a small
+//!    integer vector -> value, symbol or expression; whole tensor -> unknown) and `Model::run` is
+//!    called on the concrete inputs;
+//!  * chain: a multi-operator model (Shape/Gather/Concat/arithmetic/Equal/Where/... feeding
+//!    Reshape/Expand/...) with symbolic input dims is run once with every value requested; the
+//!    operators' rules are applied in plan order exactly as `rten::infer_shapes` does (inputs from
+//!    constants, previously inferred values (simplified) or declared shapes); every operator of the
+//!    chain becomes a case.
+//! Nothing is judged here.  `specs/shape/Trace_ShapeInfer.tla` checks that the logged assignment is
+//! consistent with (symbolic inputs, concrete inputs) and evaluates every inferred expression.
+//!
+//! Records (fixed field sets):
+//!  {"ev":"case","id","mode","op","variant","attrs","env":[{"s","v","pos"}],
+//!   "ins":[{"p","init","dt","shape","hv","vals","k","x"}]}
+//!  {"ev":"ret","id","infer":"ok|err|panic|none","imsg","so":[{"k","x"}],
+//!   "run":"ok|err|panic|loaderr","rmsg","outs":[{"p","dt","shape","hv","vals"}],"drv":"same|diff|na"}
+//! `k` is the SymTensor kind: none | unknown | shape | vec | scalar; `x` the dims / elements as trees.
+
+use std::collections::{BTreeMap, HashMap};
+use std::sync::Arc;
+
+use rten::verif::{Constant as GConst, Dimension, Node, NodeId, TypedConstant};
+use rten::{Model, ModelOptions, Value};
+use rten_shape_inference::{InferShapesContext, SymExpr, SymTensor, Symbol, SymbolGen};
+use rten_tensor::Tensor;
+use rten_tensor::prelude::*;
+use vcommon::onnx::{self, Attr, Dim, Graph as OGraph, Node as ONode, TensorData, ValueInfo};
+use vcommon::{Rng, Trace, Value as J, arg, arg_usize, guarded, json, quiet_panics};
+
+// ------------------------------------------------------------------ concrete tensors
+
+/// Integer-valued concrete tensor. `dt` is the run-time type ("f32" | "i32"), `ot` the ONNX
+/// element type declared in the model (INT64 and BOOL are i32 at run time).
+#[derive(Clone, Debug)]
+pub struct T {
+    pub shape: Vec<usize>,
+    pub dt: &'static str,
+    pub ot: i32,
+    pub data: Vec<i64>,
+}
+
+fn numel(s: &[usize]) -> usize {
+    s.iter().product()
+}
+
+impl T {
+    fn new(shape: &[usize], dt: &'static str, data: Vec<i64>) -> T {
+        assert_eq!(numel(shape), data.len(), "shape {shape:?}");
+        T {
+            shape: shape.to_vec(),
+            dt,
+            ot: if dt == "f32" { onnx::FLOAT } else { onnx::INT32 },
+            data,
+        }
+    }
+    fn f32(shape: &[usize], r: &mut Rng) -> T {
+        let n = numel(shape);
+        T::new(shape, "f32", (0..n).map(|_| r.range(-4, 4)).collect())
+    }
+    fn i32(shape: &[usize], r: &mut Rng, lo: i64, hi: i64) -> T {
+        let n = numel(shape);
+        T::new(shape, "i32", (0..n).map(|_| r.range(lo, hi)).collect())
+    }
+    fn i64s(v: &[i64]) -> T {
+        let mut t = T::new(&[v.len()], "i32", v.to_vec());
+        t.ot = onnx::INT64;
+        t
+    }
+    fn i64_scalar(v: i64) -> T {
+        let mut t = T::new(&[], "i32", vec![v]);
+        t.ot = onnx::INT64;
+        t
+    }
+    fn ot(mut self, ot: i32) -> T {
+        self.ot = ot;
+        self
+    }
+    fn to_value(&self) -> Value {
+        let sh = self.shape.as_slice();
+        if self.dt == "f32" {
+            Tensor::from_data(sh, self.data.iter().map(|v| *v as f32).collect::<Vec<_>>()).into()
+        } else {
+            Tensor::from_data(sh, self.data.iter().map(|v| *v as i32).collect::<Vec<_>>()).into()
+        }
+    }
+    fn to_onnx(&self, name: &str) -> onnx::Tensor {
+        let d = &self.data;
+        let data = match self.ot {
+            onnx::FLOAT => TensorData::F32(d.iter().map(|v| *v as f32).collect()),
+            onnx::INT32 => TensorData::I32(d.iter().map(|v| *v as i32).collect()),
+            onnx::INT64 => TensorData::I64(d.clone()),
+            onnx::BOOL => TensorData::Bool(d.iter().map(|v| *v != 0).collect()),
+            other => panic!("unsupported onnx type {other}"),
+        };
+        onnx::Tensor {
+            name: name.to_string(),
+            dims: self.shape.iter().map(|d| *d as i64).collect(),
+            data,
+        }
+    }
+    fn json(&self) -> J {
+        let hv = self.data.len() <= MAX_VALS;
+        json!({"p": true, "dt": self.dt, "shape": self.shape, "hv": hv,
+               "vals": if hv { self.data.clone() } else { vec![] }})
+    }
+    fn from_json(j: &J, ot: i32) -> T {
+        let dt = if j["dt"].as_str() == Some("f32") { "f32" } else { "i32" };
+        T {
+            shape: j["shape"].as_array().unwrap().iter().map(|x| x.as_u64().unwrap() as usize).collect(),
+            dt,
+            ot,
+            data: j["vals"].as_array().unwrap().iter().map(|x| x.as_i64().unwrap()).collect(),
+        }
+    }
+}
+
+const MAX_VALS: usize = 64;
+
+fn absent_json() -> J {
+    json!({"p": false, "dt": "", "shape": [], "hv": false, "vals": []})
+}
+
+/// What execution produced, as a trace object.
+fn value_json(v: &Value) -> J {
+    fn small<I: Iterator<Item = Option<i64>>>(dt: &str, shape: &[usize], it: I) -> J {
+        let n = numel(shape);
+        let vals: Option<Vec<i64>> = if n <= MAX_VALS { it.collect() } else { None };
+        match vals {
+            Some(v) => json!({"p": true, "dt": dt, "shape": shape, "hv": true, "vals": v}),
+            None => json!({"p": true, "dt": dt, "shape": shape, "hv": false, "vals": []}),
+        }
+    }
+    match v {
+        Value::FloatTensor(t) => small(
+            "f32",
+            t.shape(),
+            t.iter().map(|x| {
+                if x.is_finite() && x.fract() == 0.0 && x.abs() < (1u64 << 30) as f32 {
+                    Some(*x as i64)
+                } else {
+                    None
+                }
+            }),
+        ),
+        Value::Int32Tensor(t) => small("i32", t.shape(), t.iter().map(|x| Some(*x as i64))),
+        Value::Int8Tensor(t) => small("i8", t.shape(), t.iter().map(|x| Some(*x as i64))),
+        Value::UInt8Tensor(t) => small("u8", t.shape(), t.iter().map(|x| Some(*x as i64))),
+        _ => json!({"p": true, "dt": "seq", "shape": [], "hv": false, "vals": []}),
+    }
+}
+
+// ------------------------------------------------------------------ symbolic values as JSON
+
+fn tnode(op: &str, v: i32, s: &str, pos: bool, a: Vec<J>) -> J {
+    json!({"op": op, "v": v, "s": s, "pos": pos, "a": a})
+}
+
+/// Expression tree in the record shape of specs/lib/SymExpr.tla.
+pub fn tree(e: &SymExpr) -> J {
+    let bin = |op: &str, l: &SymExpr, r: &SymExpr| tnode(op, 0, "", false, vec![tree(l), tree(r)]);
+    match e {
+        SymExpr::Value(x) => tnode("Val", *x, "", false, vec![]),
+        SymExpr::Var(sym) => tnode("Var", 0, &sym.name, sym.positive, vec![]),
+        SymExpr::Neg(x) => tnode("Neg", 0, "", false, vec![tree(x)]),
+        SymExpr::Add(l, r) => bin("Add", l, r),
+        SymExpr::Sub(l, r) => bin("Sub", l, r),
+        SymExpr::Mul(l, r) => bin("Mul", l, r),
+        SymExpr::Div(l, r) => bin("Div", l, r),
+        SymExpr::DivCeil(l, r) => bin("DivCeil", l, r),
+        SymExpr::Max(l, r) => bin("Max", l, r),
+        SymExpr::Min(l, r) => bin("Min", l, r),
+        SymExpr::Broadcast(l, r) => bin("Broadcast", l, r),
+    }
+}
+
+fn untree(t: &J) -> SymExpr {
+    let op = t["op"].as_str().unwrap();
+    let kid = |i: usize| Arc::new(untree(&t["a"][i]));
+    match op {
+        "Val" => SymExpr::Value(t["v"].as_i64().unwrap() as i32),
+        "Var" => SymExpr::Var(Arc::new(Symbol {
+            name: t["s"].as_str().unwrap().to_string(),
+            positive: t["pos"].as_bool().unwrap(),
+            synthetic: false,
+        })),
+        "Neg" => SymExpr::Neg(kid(0)),
+        "Add" => SymExpr::Add(kid(0), kid(1)),
+        "Sub" => SymExpr::Sub(kid(0), kid(1)),
+        "Mul" => SymExpr::Mul(kid(0), kid(1)),
+        "Div" => SymExpr::Div(kid(0), kid(1)),
+        "DivCeil" => SymExpr::DivCeil(kid(0), kid(1)),
+        "Max" => SymExpr::Max(kid(0), kid(1)),
+        "Min" => SymExpr::Min(kid(0), kid(1)),
+        "Broadcast" => SymExpr::Broadcast(kid(0), kid(1)),
+        _ => panic!("unknown op {op}"),
+    }
+}
+
+fn sym_json(t: Option<&SymTensor>) -> J {
+    let Some(t) = t else {
+        return json!({"k": "none", "x": []});
+    };
+    if let Some(s) = t.as_scalar() {
+        json!({"k": "scalar", "x": [tree(s)]})
+    } else if let Some(v) = t.as_vector() {
+        json!({"k": "vec", "x": v.iter().map(tree).collect::<Vec<_>>()})
+    } else if let Some(dims) = t.shape() {
+        json!({"k": "shape", "x": dims.map(|d| tree(&d)).collect::<Vec<_>>()})
+    } else {
+        json!({"k": "unknown", "x": []})
+    }
+}
+
+fn sym_from_json(j: &J) -> Option<SymTensor> {
+    let xs: Vec<SymExpr> = j["x"].as_array().unwrap().iter().map(untree).collect();
+    match j["k"].as_str().unwrap() {
+        "none" => None,
+        "unknown" => Some(SymTensor::unknown("abstraction")),
+        "shape" => Some(SymTensor::from_shape(xs)),
+        "vec" => Some(SymTensor::from_vec(xs)),
+        "scalar" => Some(SymTensor::from_scalar(xs.into_iter().next().unwrap())),
+        k => panic!("bad kind {k}"),
+    }
+}
+
+// ------------------------------------------------------------------ abstraction
+
+/// Seeded abstraction of concrete inputs into symbolic ones; records the assignment it implies.
+struct Abst {
+    r: Rng,
+    /// symbol name -> (value, positive)
+    env: BTreeMap<String, (i64, bool)>,
+}
+
+impl Abst {
+    fn sym(&mut self, name: String, val: i64, pos: bool) -> SymExpr {
+        assert!(!pos || val >= 0);
+        self.env.insert(name.clone(), (val, pos));
+        SymExpr::Var(Arc::new(Symbol {
+            name,
+            positive: pos,
+            synthetic: false,
+        }))
+    }
+
+    /// A symbol whose value is `val`; shared by value or unique to `tag`.
+    fn sym_for(&mut self, tag: &str, val: i64, must_pos: bool) -> SymExpr {
+        let pos = must_pos || (val >= 0 && self.r.chance(7, 10));
+        let shared = self.r.chance(1, 2);
+        let v = if val < 0 { format!("m{}", -val) } else { format!("{val}") };
+        let name = match (shared, pos) {
+            (true, true) => format!("n{v}"),
+            (true, false) => format!("u{v}"),
+            (false, true) => format!("p_{tag}"),
+            (false, false) => format!("q_{tag}"),
+        };
+        self.sym(name, val, pos)
+    }
+
+    /// Small expression that evaluates to `c` under the recorded assignment.
+    fn expr_for(&mut self, tag: &str, c: i64) -> SymExpr {
+        let k = *self.r.pick(&[1i64, 2, -1, 3, 5, -2]);
+        let val = |x: i64| SymExpr::Value(x as i32);
+        match self.r.below(9) {
+            0 => -self.sym_for(tag, -c, false),
+            1 => self.sym_for(tag, c - k, false) + val(k),
+            2 => self.sym_for(tag, c + k, false) - val(k),
+            3 if c % k == 0 => self.sym_for(tag, c / k, false) * val(k),
+            4 => val(k) - self.sym_for(tag, k - c, false),
+            5 => {
+                let d = *self.r.pick(&[2i64, 3]);
+                let rem = self.r.range(0, d - 1);
+                let x = if c > 0 { c * d + rem } else if c < 0 { c * d - rem } else { self.r.range(-(d - 1), d - 1) };
+                self.sym_for(tag, x, false) / val(d)
+            }
+            6 => self.sym_for(tag, c, false).max(&val(c - self.r.range(0, 2))),
+            7 => self.sym_for(tag, c, false).min(&val(c + self.r.range(0, 2))),
+            _ => {
+                let a = self.r.range(-2, 3);
+                let t2 = format!("{tag}b");
+                self.sym_for(tag, a, false) + self.sym_for(&t2, c - a, false)
+            }
+        }
+    }
+
+    fn dim(&mut self, tag: &str, size: usize) -> SymExpr {
+        match self.r.below(20) {
+            0..=8 => SymExpr::Value(size as i32),
+            9..=17 => self.sym_for(tag, size as i64, true),
+            _ => self.expr_for(tag, size as i64),
+        }
+    }
+
+    fn elem(&mut self, tag: &str, v: i64) -> SymExpr {
+        match self.r.below(20) {
+            0..=7 => SymExpr::Value(v as i32),
+            8..=14 => self.sym_for(tag, v, false),
+            _ => self.expr_for(tag, v),
+        }
+    }
+
+    /// Abstraction of input `k`. `values`: allow a value-carrying abstraction.
+    fn input(&mut self, k: usize, t: &T, init: bool) -> SymTensor {
+        let small_int = t.dt == "i32" && t.shape.len() <= 1 && t.data.len() <= 8;
+        if init {
+            // what the graph driver does for constants
+            return if small_int && t.shape.is_empty() {
+                SymTensor::from_scalar(SymExpr::Value(t.data[0] as i32))
+            } else if small_int {
+                SymTensor::from_vec(t.data.iter().map(|v| SymExpr::Value(*v as i32)).collect())
+            } else {
+                SymTensor::from_fixed_shape(&t.shape)
+            };
+        }
+        let c = self.r.below(20);
+        if c == 0 {
+            return SymTensor::unknown("abstraction");
+        }
+        if small_int && c < 14 {
+            let xs: Vec<SymExpr> = t.data.iter().enumerate().map(|(i, v)| self.elem(&format!("e{k}_{i}"), *v)).collect();
+            return if t.shape.is_empty() {
+                SymTensor::from_scalar(xs.into_iter().next().unwrap())
+            } else {
+                SymTensor::from_vec(xs)
+            };
+        }
+        SymTensor::from_shape(t.shape.iter().enumerate().map(|(a, s)| self.dim(&format!("d{k}_{a}"), *s)).collect())
+    }
+
+    fn env_json(&self) -> J {
+        J::Array(self.env.iter().map(|(s, (v, p))| json!({"s": s, "v": v, "pos": p})).collect())
+    }
+}
+
+// ------------------------------------------------------------------ single-operator cases
+
+#[derive(Clone, Debug)]
+pub struct Case {
+    pub op: String,
+    pub variant: String,
+    pub domain: String,
+    pub attrs: Vec<(String, Attr)>,
+    pub ins: Vec<Option<T>>,
+    pub init: Vec<bool>,
+    pub nout: usize,
+}
+
+impl Case {
+    fn new(op: &str, variant: &str) -> Case {
+        Case {
+            op: op.into(),
+            variant: variant.into(),
+            domain: String::new(),
+            attrs: vec![],
+            ins: vec![],
+            init: vec![],
+            nout: 1,
+        }
+    }
+    fn input(mut self, t: T) -> Case {
+        self.ins.push(Some(t));
+        self.init.push(false);
+        self
+    }
+    fn constant(mut self, t: T) -> Case {
+        self.ins.push(Some(t));
+        self.init.push(true);
+        self
+    }
+    /// Runtime input or initializer, chosen by `as_init`.
+    fn maybe_const(self, t: T, as_init: bool) -> Case {
+        if as_init { self.constant(t) } else { self.input(t) }
+    }
+    fn skip(mut self) -> Case {
+        self.ins.push(None);
+        self.init.push(false);
+        self
+    }
+    fn attr(mut self, name: &str, a: Attr) -> Case {
+        self.attrs.push((name.into(), a));
+        self
+    }
+    fn int(self, name: &str, v: i64) -> Case {
+        self.attr(name, Attr::Int(v))
+    }
+    fn ints(self, name: &str, v: &[i64]) -> Case {
+        self.attr(name, Attr::Ints(v.to_vec()))
+    }
+    fn nout(mut self, n: usize) -> Case {
+        self.nout = n;
+        self
+    }
+    fn attrs_str(&self) -> String {
+        let mut s = String::new();
+        for (n, a) in &self.attrs {
+            let v = match a {
+                Attr::Int(i) => format!("{i}"),
+                Attr::Float(f) => format!("{f}"),
+                Attr::Str(x) => x.clone(),
+                Attr::Ints(v) => format!("{v:?}"),
+                Attr::Tensor(t) => format!("tensor{:?}", t.dims),
+                _ => "..".into(),
+            };
+            s.push_str(&format!("{n}={v};"));
+        }
+        s
+    }
+    fn attrs_json(&self) -> J {
+        J::Array(
+            self.attrs
+                .iter()
+                .map(|(n, a)| match a {
+                    Attr::Int(i) => json!({"n": n, "k": "int", "v": [i]}),
+                    Attr::Float(f) => json!({"n": n, "k": "flt", "v": [*f as i64]}),
+                    Attr::Str(x) => json!({"n": n, "k": "str", "v": [x]}),
+                    Attr::Ints(v) => json!({"n": n, "k": "ints", "v": v}),
+                    Attr::Tensor(t) => {
+                        let vals: Vec<i64> = match &t.data {
+                            TensorData::I64(v) => v.clone(),
+                            TensorData::I32(v) => v.iter().map(|x| *x as i64).collect(),
+                            TensorData::F32(v) => v.iter().map(|x| *x as i64).collect(),
+                            _ => vec![],
+                        };
+                        let kind = match &t.data {
+                            TensorData::F32(_) => "tensf",
+                            TensorData::I32(_) => "tensi32",
+                            _ => "tensi64",
+                        };
+                        json!({"n": n, "k": kind, "v": vals, "dims": t.dims})
+                    }
+                    _ => json!({"n": n, "k": "other", "v": []}),
+                })
+                .collect(),
+        )
+    }
+
+    fn model(&self) -> Vec<u8> {
+        let in_names: Vec<String> = self
+            .ins
+            .iter()
+            .enumerate()
+            .map(|(k, t)| if t.is_some() { format!("i{k}") } else { String::new() })
+            .collect();
+        let mut n_in = in_names.len();
+        while n_in > 0 && in_names[n_in - 1].is_empty() {
+            n_in -= 1;
+        }
+        let out_names: Vec<String> = (0..self.nout).map(|k| format!("o{k}")).collect();
+        let mut node = ONode::new(
+            &self.op,
+            &in_names[..n_in].iter().map(|s| s.as_str()).collect::<Vec<_>>(),
+            &out_names.iter().map(|s| s.as_str()).collect::<Vec<_>>(),
+        );
+        node.domain = self.domain.clone();
+        node.attrs = self.attrs.clone();
+        let mut g = OGraph::default();
+        g.nodes.push(node);
+        for (k, t) in self.ins.iter().enumerate() {
+            let Some(t) = t else { continue };
+            if self.init[k] {
+                g.initializers.push(t.to_onnx(&in_names[k]));
+            } else {
+                g.inputs.push(ValueInfo::new(&in_names[k], t.ot, None));
+            }
+        }
+        for o in &out_names {
+            g.outputs.push(ValueInfo::new(o, 0, None));
+        }
+        g.to_model()
+    }
+}
+
+fn trunc(s: &str) -> String {
+    s.chars().filter(|c| c.is_ascii() && !c.is_ascii_control() && *c != '"' && *c != '\\').take(120).collect()
+}
+
+fn load(bytes: Vec<u8>) -> Result<Model, String> {
+    match guarded(|| {
+        let mut opts = ModelOptions::with_all_ops();
+        opts.enable_optimization(false);
+        opts.load(bytes)
+    }) {
+        Ok(Ok(m)) => Ok(m),
+        Ok(Err(e)) => Err(format!("loaderr: {e}")),
+        Err(p) => Err(format!("panic in load: {p}")),
+    }
+}
+
+/// Call the operator's inference rule; returns (outcome, message, outputs).
+fn call_infer(opn: &rten::verif::OperatorNode, ins: &[Option<SymTensor>], sym_gen: &mut SymbolGen) -> (&'static str, String, Vec<SymTensor>) {
+    let Some(rule) = opn.operator().as_infer_shapes() else {
+        return ("none", String::new(), vec![]);
+    };
+    match guarded(|| rule.infer_shapes(InferShapesContext::new(ins), sym_gen)) {
+        Ok(Ok(outs)) => ("ok", String::new(), outs),
+        Ok(Err(e)) => ("err", trunc(&format!("{e:?}")), vec![]),
+        Err(p) => ("panic", trunc(&p), vec![]),
+    }
+}
+
+struct Emit<'a> {
+    /// shards; `cur` selects the one the current case goes to
+    trs: &'a mut Vec<Trace>,
+    cur: usize,
+    id: usize,
+}
+
+impl Emit<'_> {
+    #[allow(clippy::too_many_arguments)]
+    fn case(&mut self, mode: &str, op: &str, variant: &str, attrs: &str, env: J, ins: Vec<J>, extra: J) -> usize {
+        self.id += 1;
+        let mut rec = json!({"ev": "case", "id": self.id, "mode": mode, "op": op, "variant": variant,
+                             "attrs": attrs, "env": env, "ins": ins});
+        // replay information (not read by the spec)
+        rec.as_object_mut().unwrap().insert("replay".into(), extra);
+        self.trs[self.cur].emit(rec);
+        self.id
+    }
+    fn ret(&mut self, rec: J) {
+        self.trs[self.cur].emit(rec);
+    }
+    fn flush(&mut self) {
+        self.trs[self.cur].flush();
+    }
+}
+
+fn in_json(t: Option<&T>, init: bool, s: Option<&SymTensor>) -> J {
+    let mut j = match t {
+        Some(t) => t.json(),
+        None => absent_json(),
+    };
+    let m = j.as_object_mut().unwrap();
+    m.insert("init".into(), json!(init));
+    let sj = sym_json(s);
+    m.insert("k".into(), sj["k"].clone());
+    m.insert("x".into(), sj["x"].clone());
+    j
+}
+
+/// Run one single-operator case. `fixed_abs`: replay a recorded abstraction instead of drawing one.
+fn run_single(em: &mut Emit, c: &Case, r: &mut Rng, fixed_abs: Option<(&J, &J)>) {
+    let mut ab = Abst {
+        r: Rng(r.next_u64()),
+        env: BTreeMap::new(),
+    };
+    let (sym_ins, env): (Vec<Option<SymTensor>>, J) = match fixed_abs {
+        Some((ins, env)) => (ins.as_array().unwrap().iter().map(sym_from_json).collect(), env.clone()),
+        None => {
+            let s: Vec<Option<SymTensor>> = c
+                .ins
+                .iter()
+                .enumerate()
+                .map(|(k, t)| t.as_ref().map(|t| ab.input(k, t, c.init[k])))
+                .collect();
+            (s, ab.env_json())
+        }
+    };
+    let ins_json: Vec<J> = c
+        .ins
+        .iter()
+        .enumerate()
+        .map(|(k, t)| in_json(t.as_ref(), c.init[k], sym_ins[k].as_ref()))
+        .collect();
+    let replay = json!({"domain": c.domain, "attrs": c.attrs_json(), "nout": c.nout,
+                        "ots": c.ins.iter().map(|t| t.as_ref().map(|t| t.ot).unwrap_or(0)).collect::<Vec<_>>(),
+                        "data": c.ins.iter().map(|t| t.as_ref().map(|t| t.data.clone()).unwrap_or_default()).collect::<Vec<_>>()});
+    let id = em.case("single", &c.op, &c.variant, &c.attrs_str(), env, ins_json, replay);
+    em.flush();
+
+    let absent: Vec<J> = vec![];
+    let model = match load(c.model()) {
+        Ok(m) => m,
+        Err(e) => {
+            em.ret(json!({"ev": "ret", "id": id, "infer": "none", "imsg": "", "so": absent,
+                              "run": "loaderr", "rmsg": trunc(&e), "outs": absent, "drv": "na"}));
+            return;
+        }
+    };
+    // inference on the abstraction
+    let graph = model.verif_graph();
+    let opn = graph.iter().find_map(|(_, n)| if let Node::Operator(o) = n { Some(o) } else { None });
+    let (infer, imsg, so) = match opn {
+        Some(opn) => call_infer(opn, &sym_ins, &mut SymbolGen::new()),
+        None => ("none", "no operator node".to_string(), vec![]),
+    };
+    // execution on the concrete inputs
+    let run = guarded(|| -> Result<Vec<Value>, String> {
+        let mut inputs = Vec::new();
+        for (k, t) in c.ins.iter().enumerate() {
+            let Some(t) = t else { continue };
+            if c.init[k] {
+                continue;
+            }
+            let id = model.node_id(&format!("i{k}")).map_err(|e| e.to_string())?;
+            inputs.push((id, t.to_value().into()));
+        }
+        let mut outs = Vec::new();
+        for k in 0..c.nout {
+            outs.push(model.node_id(&format!("o{k}")).map_err(|e| e.to_string())?);
+        }
+        model.run(inputs, &outs, None).map_err(|e| e.to_string())
+    });
+    let (runs, rmsg, outs): (&str, String, Vec<J>) = match run {
+        Ok(Ok(v)) => ("ok", String::new(), v.iter().map(value_json).collect()),
+        Ok(Err(e)) => ("err", trunc(&e), vec![]),
+        Err(p) => ("panic", trunc(&p), vec![]),
+    };
+    em.ret(json!({"ev": "ret", "id": id, "infer": infer, "imsg": imsg,
+                      "so": so.iter().map(|s| sym_json(Some(s))).collect::<Vec<_>>(),
+                      "run": runs, "rmsg": rmsg, "outs": outs, "drv": "na"}));
+}
+
+include!("infer_catalogue.rs");
+include!("infer_chain.rs");
+
 pub fn main() {
-    eprintln!("vh-ops infer: not implemented yet");
-    std::process::exit(2);
+    quiet_panics();
+    let out = arg("--out").unwrap_or_else(|| "-".into());
+    let per = arg_usize("--per", 20);
+    let nchains = arg_usize("--chains", 50);
+    let only_ops: Option<Vec<String>> = arg("--ops").map(|s| s.split(',').map(|x| x.to_string()).collect());
+    let mut rng = Rng::from_env();
+    if std::env::args().any(|a| a == "--list") {
+        for (name, _) in catalogue() {
+            println!("{name}");
+        }
+        return;
+    }
+    let shards = arg_usize("--shards", 1).max(1);
+    let mut trs: Vec<Trace> = if shards == 1 {
+        vec![Trace::create(&out)]
+    } else {
+        (0..shards).map(|k| Trace::create(&format!("{out}.{k}"))).collect()
+    };
+    let mut em = Emit { trs: &mut trs, cur: 0, id: 0 };
+    let pool = rten::ThreadPool::with_num_threads(1);
+    pool.run(|| {
+        if let Some(cj) = arg("--only-case") {
+            let cj: J = serde_json::from_str(&cj).expect("case json");
+            replay_case(&mut em, &cj, &mut rng);
+            return;
+        }
+        for (name, generate) in catalogue() {
+            if let Some(only) = &only_ops {
+                if !only.iter().any(|o| o == name) {
+                    continue;
+                }
+            }
+            // every operator draws from its own stream so that --ops does not change the cases
+            let mut r = Rng::new(rng.0 ^ fxhash(name));
+            for i in 0..per {
+                em.cur = i % shards;
+                let c = generate(&mut r);
+                run_single(&mut em, &c, &mut r, None);
+            }
+        }
+        if only_ops.is_none() || only_ops.as_ref().unwrap().iter().any(|o| o == "chain") {
+            let mut r = Rng::new(rng.0 ^ fxhash("chain"));
+            for i in 0..nchains {
+                em.cur = i % shards;
+                run_chain(&mut em, &mut r, None);
+            }
+        }
+    });
+    for t in trs.iter_mut() {
+        t.flush();
+    }
+}
+
+fn fxhash(s: &str) -> u64 {
+    let mut h: u64 = 0xcbf29ce484222325;
+    for b in s.bytes() {
+        h ^= b as u64;
+        h = h.wrapping_mul(0x100000001b3);
+    }
+    h
+}
+
+/// Re-run one recorded case (the `case` record of a trace) with the recorded abstraction.
+fn replay_case(em: &mut Emit, cj: &J, rng: &mut Rng) {
+    if cj["mode"].as_str() == Some("chain") {
+        run_chain(em, rng, Some(cj));
+        return;
+    }
+    let rp = &cj["replay"];
+    let mut c = Case::new(cj["op"].as_str().unwrap(), cj["variant"].as_str().unwrap());
+    c.domain = rp["domain"].as_str().unwrap_or("").to_string();
+    c.nout = rp["nout"].as_u64().unwrap() as usize;
+    for a in rp["attrs"].as_array().unwrap() {
+        let n = a["n"].as_str().unwrap();
+        let v = a["v"].as_array().unwrap();
+        let ints = || v.iter().map(|x| x.as_i64().unwrap()).collect::<Vec<i64>>();
+        let dims = || a["dims"].as_array().unwrap().iter().map(|x| x.as_i64().unwrap()).collect::<Vec<i64>>();
+        let at = match a["k"].as_str().unwrap() {
+            "int" => Attr::Int(v[0].as_i64().unwrap()),
+            "flt" => Attr::Float(v[0].as_i64().unwrap() as f32),
+            "str" => Attr::Str(v[0].as_str().unwrap().to_string()),
+            "ints" => Attr::Ints(ints()),
+            "tensf" => Attr::Tensor(onnx::Tensor { name: String::new(), dims: dims(), data: TensorData::F32(ints().iter().map(|x| *x as f32).collect()) }),
+            "tensi32" => Attr::Tensor(onnx::Tensor { name: String::new(), dims: dims(), data: TensorData::I32(ints().iter().map(|x| *x as i32).collect()) }),
+            "tensi64" => Attr::Tensor(onnx::Tensor { name: String::new(), dims: dims(), data: TensorData::I64(ints()) }),
+            _ => continue,
+        };
+        c.attrs.push((n.to_string(), at));
+    }
+    for (k, i) in cj["ins"].as_array().unwrap().iter().enumerate() {
+        if i["p"].as_bool().unwrap() {
+            let mut t = T::from_json(i, rp["ots"][k].as_i64().unwrap() as i32);
+            t.data = rp["data"][k].as_array().unwrap().iter().map(|x| x.as_i64().unwrap()).collect();
+            c.ins.push(Some(t));
+        } else {
+            c.ins.push(None);
+        }
+        c.init.push(i["init"].as_bool().unwrap());
+    }
+    let sym: J = J::Array(cj["ins"].as_array().unwrap().iter().map(|i| json!({"k": i["k"], "x": i["x"]})).collect());
+    run_single(em, &c, rng, Some((&sym, &cj["env"])));
+}
+
+#[allow(dead_code)]
+fn unused(_: HashMap<NodeId, Dimension>, _: &GConst, _: Dim) {
+    let _ = <GConst as TypedConstant<i32>>::as_scalar;
 }
